@@ -11,6 +11,7 @@
 
 pub mod sched;
 pub mod store;
+pub mod threads;
 
 use proptest::strategy::{Strategy, ValueTree};
 use proptest::test_runner::{Config, RngAlgorithm, TestCaseError, TestError, TestRng, TestRunner};
